@@ -44,16 +44,17 @@ func c07Device(c *lib.Ctx, idx uint64) {
 func c07Plan(rng *lib.Rand, idx uint64) *ref.Plan {
 	ft := lib.FileTypes[idx%uint64(len(lib.FileTypes))].Type
 	o := lib.GenOpts{
-		FileType:   ft,
-		Records:    4 + rng.Intn(25),
-		Locals:     1 + rng.Intn(4),
-		Redefine:   12,
-		Narrow:     15,
-		BigEndian:  50,
-		Unknown:    25,
-		Compressed: 15,
-		NoTimeZero: true,
-		Mesgs:      lib.HostedMesgs(ft),
+		FileType:      ft,
+		Records:       4 + rng.Intn(25),
+		Locals:        1 + rng.Intn(4),
+		Redefine:      12,
+		Narrow:        15,
+		BigEndian:     50,
+		Unknown:       25,
+		Compressed:    15,
+		NoTimeZero:    true,
+		Mesgs:         lib.HostedMesgs(ft),
+		ZeroFieldDefs: 3,
 	}
 	if rng.Chance(1, 6) {
 		o.Mesgs = nil
